@@ -1,10 +1,12 @@
 import Driver.AsmFam
 import Driver.VmFam
 import Driver.TypesFam
+import Driver.CheckFam
+import Driver.LockFam
 
 open Driver
 
-def families : List (String → Option (Parser String)) := [asmFamily, vmFamily, typesFamily]
+def families : List (String → Option (Parser String)) := [asmFamily, vmFamily, typesFamily, checkFamily, lockFamily]
 
 def step (line : String) : String :=
   match line.trimAscii.toString.splitOn " " with
